@@ -17,6 +17,7 @@ import ast
 import contextlib
 import io
 import os
+import time
 import zlib
 
 from .. import core
@@ -34,6 +35,8 @@ FAMILIES = ["recfile", "fields", "byteorder", "match", "hist", "stat", "coords",
 STATIC_OK = {}          # driver name -> bool, filled by static_step
 EXEMPT_HITS = {}        # "driver.arg" -> number of calls in which the exempt (documented in-place) argument did change
 ERRORS = {}             # driver -> number of calls that raised (an exception is not a mutation)
+TIMES = {}              # phase -> seconds (reported in the evidence)
+DYN_CHANGED = {}        # driver -> first case in which a non-exempt argument changed
 
 
 def params_of(d):
@@ -295,6 +298,13 @@ class Dyn(Entry):
         return self.compiled[d["name"]]
 
     def impl(self, c):
+        t0 = time.time()
+        try:
+            return self.impl_(c)
+        finally:
+            TIMES["impl:" + self.fam] = TIMES.get("impl:" + self.fam, 0.0) + time.time() - t0
+
+    def impl_(self, c):
         import numpy as np
         d = BY_NAME[c["driver"]]
         arr, fix = params_of(d)
@@ -331,6 +341,8 @@ class Dyn(Entry):
         if err is not None:
             ERRORS[c["driver"]] = ERRORS.get(c["driver"], 0) + 1
         out["changed"] = sorted(p for p, v in out["args"].items() if v[0] != v[2] or v[1] != v[3])
+        if out["changed"]:
+            DYN_CHANGED.setdefault(c["driver"], dict(c))
         return out
 
     def term(self, c, out):
@@ -400,7 +412,10 @@ def extract_all(ctx):
 
 def static_step(ctx, only=None):
     """one kernel-checked lemma `frame_ok sk ps = true` per (function, valuation)"""
+    t0 = time.time()
     ex = extract_all(ctx)
+    TIMES["static:extract"] = round(time.time() - t0, 1)
+    t0 = time.time()
     names, lemmas = [], []
     for d in drv.DRIVERS:
         if only and d["name"] not in only:
@@ -416,6 +431,7 @@ def static_step(ctx, only=None):
             lemmas.append(("frame_ok %s [%s] = true" % (r["coq"], "; ".join(map(str, r["params"]))), "vm_compute. reflexivity."))
     results = core.coq_lemmas(os.path.join(ctx.work, "static"), PRE_STATIC + "Open Scope positive_scope.\n", lemmas, shard=10, tag="frame")
     ctx.checker_cmds.append("coqc <generated frame_ok lemmas, one per (function, valuation), vm_compute>")
+    TIMES["static:coq_lemmas"] = round(time.time() - t0, 1)
     failed = []
     for n, (ok, msg) in zip(names, results):
         d = BY_NAME[n]
@@ -495,16 +511,13 @@ def run(ctx, replay=None):
         ctx.count("exempt_argument_changed:" + k, v)
     for k, v in sorted(ERRORS.items()):
         ctx.count("calls_raised:" + k, v)
-    # cross-check static <-> dynamic
-    dyn_fail = set()
-    for v in ctx.violations:
-        try:
-            import json
-            rj = json.load(open(v["replay"]))
-            if rj.get("kind") == "failing-input":
-                dyn_fail.add(rj["case"]["driver"])
-        except Exception:
-            pass
+    for k, v in sorted(TIMES.items()):
+        ctx.count("wall_s:" + k, round(v, 1))
+    # cross-check static <-> dynamic.  The runner reports ONE failing input per entry and class; every driver in
+    # which the dynamic run saw a non-exempt argument change (DYN_CHANGED, recorded by impl) has a failing input
+    dyn_fail = set(DYN_CHANGED)
+    if dyn_fail:
+        ctx.notes.append("drivers with a dynamically observed mutation of a non-exempt argument: " + ", ".join(sorted(dyn_fail)))
     for n in failed:
         d = BY_NAME[n]
         if n in dyn_fail:
